@@ -99,6 +99,8 @@ def check_strings(case, rec):
         cl.append("beyond_edges")
     if pseudo:
         cl.append("pseudocount")
+    if any(d >= 256 for d in dists):
+        cl.append("distance>=256")
     nt = len(set(dists)) >= 3 and (beyond or bool(pseudo) or not normalize or seqs2 is not None)
     rec.note(case, nt, cl)
     kw = dict(bins=np.array(edges) if case.get("bins_as") == "array" else list(edges), normalize=normalize, pseudocount=pseudo)
@@ -299,6 +301,12 @@ def strings_case(draw, tier="quick"):
             "bins_as": draw(st.sampled_from(["list", "array"])), "default_bins": draw(st.booleans())}
     if draw(st.booleans()):
         case["seqs2"] = draw(G.clonal_family(alpha=alpha, max_size=25, min_size=1, founder_len=(1, 9), max_edits=3))
+    if draw(st.integers(0, 5)) == 0 and case["metric"] in (None, "lev"):
+        # nucleotide-length reads mixed with short ones: distances of 256 and more must not wrap around
+        L = draw(st.integers(256, 330))
+        case["seqs"] = case["seqs"][:6] + [alpha[0] * L, alpha[-1] * (L - draw(st.integers(0, 3)))]
+        top = 2 * L
+        case["bins"] = sorted(set([0, 1, 2, 5, 25, 255, 256, 257, L - 4, L, L + 1, top]))
     if case["metric"] == "lenham":
         case["container"] = "list"
     return case
